@@ -191,10 +191,7 @@ class Interp:
         if id(f.node) in _seen:
             return False
         _seen = _seen | {id(f.node)}
-        res = False
-        for kind, target, stmt in I.stores(f.node):
-            if _key_of(target) in self.track:
-                res = True
+        res = self._direct_write(f)
         if not res and depth > 0:
             for c in calls_in(f.node):
                 g = self._callee(f, c)
@@ -203,6 +200,14 @@ class Interp:
                     break
         self._mw[k] = res
         return res
+
+    def _direct_write(self, f):
+        """f itself assigns a tracked key (hook: subclasses may follow other
+        effects into callees)"""
+        for kind, target, stmt in I.stores(f.node):
+            if _key_of(target) in self.track:
+                return True
+        return False
 
     def arg_only(self, f, test):
         """the test reads nothing but parameters of f (and locals computed
@@ -357,8 +362,22 @@ class Interp:
             return out
         if isinstance(e, ast.Subscript):
             base = self.ev(f, e.value, env)
-            idx = self.ev(f, e.slice, env) \
-                if not isinstance(e.slice, ast.Slice) else UNK
+            if isinstance(e.slice, ast.Slice):
+                # slice of a known sequence with known integer bounds
+                if not isinstance(base, (list, tuple, str)):
+                    return UNK
+                parts = []
+                for p in (e.slice.lower, e.slice.upper, e.slice.step):
+                    pv = None if p is None else unsym(self.ev(f, p, env))
+                    if pv is not None and (pv is UNK or isinstance(pv, bool)
+                                           or not isinstance(pv, int)):
+                        return UNK
+                    parts.append(pv)
+                try:
+                    return base[slice(*parts)]
+                except Exception:
+                    return UNK
+            idx = self.ev(f, e.slice, env)
             if base is UNK or idx is UNK:
                 return UNK
             try:
@@ -708,6 +727,32 @@ class Interp:
                             d = dict(env[bk])
                             d.pop(t.slice.value, None)
                             env[bk] = d
+                    if isinstance(t, ast.Subscript) and \
+                            isinstance(t.slice, ast.Slice):
+                        # `del xs[a:b]` on a known list: the list without
+                        # that slice (unknown bounds: unknown list)
+                        bk = deref(env, _key_of(t.value))
+                        if bk in env and isinstance(env[bk], list):
+                            parts = []
+                            for p in (t.slice.lower, t.slice.upper,
+                                      t.slice.step):
+                                pv = None if p is None else \
+                                    unsym(self.ev(f, p, env))
+                                if pv is not None and (
+                                        pv is UNK or isinstance(pv, bool) or
+                                        not isinstance(pv, int)):
+                                    parts = None
+                                    break
+                                parts.append(pv)
+                            if parts is None:
+                                env[bk] = UNK
+                            else:
+                                lst = list(env[bk])
+                                try:
+                                    del lst[slice(*parts)]
+                                    env[bk] = lst
+                                except Exception:
+                                    env[bk] = UNK
             elif isinstance(a, ast.Return):
                 env['@ret'] = None if a.value is None else \
                     self.ev(f, a.value, env)
@@ -1317,7 +1362,7 @@ def _check_passed(prog, rep, rid, f, g, smap, pname, cur, tgt, tgt_p, retnode):
 # ------------------------------------------------------------------------------
 # R14.2  only _update_pilot drives Pilot._update
 #
-def r14_2(prog, rep, rid='R14.2', tier='quick'):
+def r14_2(prog, rep, rid='R14.2', tier='quick', by_value=False):
     rep.rule(rid, 'Pilot._state is written only by Pilot.__init__/_update; '
              'Pilot._update is called only from PilotManager._update_pilot, '
              'for a known pilot, either with an unchanged state or once per '
@@ -1365,7 +1410,7 @@ def r14_2(prog, rep, rid='R14.2', tier='quick'):
     if len(sites) < 2:
         raise AnalysisError('R14.2: fewer than 2 Pilot._update call sites in '
                             '%s' % up.where)
-    _r14_2_sites(prog, rep, rid, up, sites)
+    _r14_2_sites(prog, rep, rid, up, sites, by_value)
     if tier == 'thorough':
         for m in prog.modules.values():
             for c in calls_in(m.tree, nested=True):
@@ -1412,7 +1457,7 @@ def resolve_aliases(f, expr, depth=0):
     return unparse(T().visit(copy.deepcopy(expr)))
 
 
-def _r14_2_sites(prog, rep, rid, up, sites):
+def _r14_2_sites(prog, rep, rid, up, sites, by_value=False):
     g = cfg_of(up)
     smap = I.stmt_node_map(g)
     params = [p for p in up.params if p != 'self']
@@ -1531,9 +1576,15 @@ def _r14_2_sites(prog, rep, rid, up, sites):
                 why = 'the notification dict does not get ' \
                       "%s['state'] = %s before the call in every iteration" \
                       % (pdict, svar)
-        rep.check(arg_ok and (same or replay), rid, up,
+        # a shape this recogniser does not know is left to R14.7, which
+        # decides what Pilot._update receives for every (current, target)
+        # pair by value - if it could evaluate the method
+        shape_ok = arg_ok and (same or replay)
+        rep.check(shape_ok or by_value, rid, up,
                   '%s is applied %s' % (short(c, 40), 'with an unchanged state'
-                                        if same else 'once per passed state'),
+                                        if same else 'once per passed state'
+                                        if shape_ok else 'as R14.7 decides '
+                                        'by value'),
                   construct=c,
                   message='%s: this Pilot._update does not replay the '
                   'normalised progression: %s' % (
@@ -1543,6 +1594,340 @@ def _r14_2_sites(prog, rep, rid, up, sites):
                   history='pilot in PMGR_LAUNCHING receives PMGR_ACTIVE: the '
                   'callbacks do not see PMGR_ACTIVE_PENDING (gap not filled) '
                   'or see the target state for every replayed step')
+
+
+# ------------------------------------------------------------------------------
+# R14.7  what _update_pilot hands to Pilot._update, decided by value
+#
+PMARK  = '<pilot facade>'
+PUID   = 'pilot.0000'
+SEQ    = 'self.@applied'      # 'self.' prefix: carried in and out of callees
+PSTATE = 'self.@pstate'
+
+
+def _is_subseq(seq, full):
+    it = iter(full)
+    return all(any(x == y for y in it) for x in seq)
+
+
+class _ReplayInterp(Interp):
+    """Interp for PilotManager._update_pilot on one finite input: self._pilots
+    holds one known pilot (PMARK) whose `.state` is the state applied last;
+    a call of _pilot_state_progress is answered by its specification (R14.1
+    decides that the function meets it); self callees that hand something to
+    an `_update` are inlined."""
+
+    def __init__(self, prog, cls, progress_f, tab, inv, final, **kw):
+        Interp.__init__(self, prog, cls, track=[SEQ], depth=3, **kw)
+        self.progress_f = progress_f
+        self.tab, self.inv, self.final = tab, inv, final
+
+    def _direct_write(self, f):
+        return any(isinstance(c.func, ast.Attribute) and
+                   c.func.attr == '_update' for c in calls_in(f.node))
+
+    def ev(self, f, e, env):
+        if isinstance(e, ast.Attribute) and e.attr == 'state' and \
+                _key_of(e) not in env:
+            b = Interp.ev(self, f, e.value, env)
+            if isinstance(b, str) and b == PMARK:
+                return env.get(PSTATE, UNK)
+        return Interp.ev(self, f, e, env)
+
+    def progress_spec(self, cur, tgt, real=UNK):
+        """(state, passed) as R14.1 specifies it; where the specification
+        leaves the returned state open (no progress) the value the function
+        itself returns is used, if it can be evaluated"""
+        tab = self.tab
+        try:
+            if cur is UNK or tgt is UNK or cur not in tab or tgt not in tab:
+                return UNK
+        except TypeError:
+            return UNK
+        if tab[cur] < tab[tgt]:
+            return (tgt, [self.inv[i] for i in range(tab[cur] + 1, tab[tgt])]
+                    + [tgt])
+        st = UNK
+        if isinstance(real, (list, tuple)) and len(real) == 2 and \
+                isinstance(real[0], str):
+            st = real[0]
+        return (st, [])
+
+    def _call(self, f, c, env):
+        try:
+            g = self.prog.resolve_call(f, c, self.cls if f.cls else None)
+        except Exception:
+            g = None
+        if g is not None and g is self.progress_f:
+            ps = g.params
+            if len(ps) != 3:
+                return UNK
+            cenv = self._bind(f, c, g, env)
+            return self.progress_spec(unsym(cenv.get(ps[1], UNK)),
+                                      unsym(cenv.get(ps[2], UNK)),
+                                      Interp._call(self, f, c, env))
+        return Interp._call(self, f, c, env)
+
+
+def _step_accepted(prog, upd, prev, s):
+    """Pilot._update, entered with the facade in state prev and a
+    notification for state s, reaches its end with self._state == s on some
+    path (None: cannot be evaluated)"""
+    ps = [p for p in upd.params if p != 'self']
+    if not ps:
+        return None
+    pd = ps[0]
+    ip = Interp(prog, upd.cls, track=['self._state'], depth=1,
+                inputs={'self.state': prev, 'self.uid': PUID,
+                        "%s['uid']" % pd: PUID, "%s['state']" % pd: s},
+                max_states=20000)
+    try:
+        exits = ip.run(upd, {'self._state': prev})
+    except AnalysisError:
+        return None
+    vals = {unsym(thaw(dict(fe).get('self._state', UNK))) for fe in exits}
+    if s in vals:
+        return True
+    return None if UNK in vals else False
+
+
+def r14_7(prog, rep, rid='R14.7'):
+    rep.rule(rid, 'for every pair (state of the pilot, state of the '
+             'notification) of the pilot state table, PilotManager.'
+             '_update_pilot hands Pilot._update exactly the states in '
+             '(current, target] one by one - intermediate states are dropped '
+             'only for the targets FAILED / CANCELED - nothing for a target '
+             'that is not ahead, and Pilot._update accepts every such step',
+             minimum=12)
+    tab = prog.const(STATES, '_pilot_state_values')
+    final = prog.const(STATES, 'FINAL')
+    abnormal = {prog.const(STATES, 'FAILED'), prog.const(STATES, 'CANCELED')}
+    if not isinstance(tab, dict) or not isinstance(final, list) or \
+            not all(isinstance(x, str) for x in abnormal):
+        raise AnalysisError('R14.7: _pilot_state_values / FINAL / FAILED / '
+                            'CANCELED do not fold')
+    states = sorted((s for s in tab if s is not None),
+                    key=lambda s: (tab[s], s))
+    inv = {v: k for k, v in tab.items() if k is not None and k not in final}
+    n = len(inv)
+    if sorted(inv) != list(range(n)) or \
+            any(tab.get(s) != n for s in final):
+        # R14.1 reports the malformed table; the specification of the replay
+        # is not defined on it
+        raise AnalysisError('R14.7: the pilot state table is not a linear '
+                            'order with a shared final value (see R14.1)')
+    pm = prog.cls(*PMGR)
+    up = prog.method(PMGR[0], PMGR[1], '_update_pilot')
+    upd = prog.method(PILOT[0], PILOT[1], '_update')
+    prog_f = prog.function(STATES, '_pilot_state_progress')
+    rep.saw(up)
+    rep.saw(upd)
+    params = [p for p in up.params if p != 'self']
+    if not params:
+        raise AnalysisError('UNRECOGNISED-IDIOM %s: no pilot_dict parameter'
+                            % up.where)
+    pdict = params[0]
+    KEY_ST = "%s['state']" % pdict
+
+    n_obs = [0]
+    verdicts = []
+
+    def observe(f, node, env):
+        if node.kind != 'stmt' or node.ast is None or \
+                isinstance(node.ast, (ast.FunctionDef, ast.ClassDef,
+                                      ast.AsyncFunctionDef)):
+            return
+        for c in calls_in(node.ast):
+            if not (isinstance(c.func, ast.Attribute) and
+                    c.func.attr == '_update'):
+                continue
+            recv = c.func.value
+            if isinstance(recv, ast.Name) and recv.id in ('self', 'cls'):
+                continue
+            rv = ip.ev(f, recv, env)
+            if rv is UNK or isinstance(rv, Sym):
+                raise AnalysisError('UNRECOGNISED-IDIOM %s: receiver of `%s` '
+                                    'cannot be evaluated' % (f.where,
+                                                             short(c, 60)))
+            if not (isinstance(rv, str) and rv == PMARK):
+                continue
+            if len(c.args) != 1 or c.keywords:
+                raise AnalysisError('UNRECOGNISED-IDIOM %s: Pilot._update is '
+                                    'not called with one notification dict: '
+                                    '%s' % (f.where, short(c, 60)))
+            arg = c.args[0]
+            # a (deep) copy of the notification carries the same state
+            while isinstance(arg, ast.Call) and not arg.keywords and (
+                    (len(arg.args) == 1 and call_name(arg) in
+                     ('dict', 'copy.copy', 'copy.deepcopy')) or
+                    (not arg.args and isinstance(arg.func, ast.Attribute)
+                     and arg.func.attr == 'copy')):
+                arg = arg.args[0] if arg.args else arg.func.value
+            st = ip.ev(f, ast.Subscript(value=arg,
+                                        slice=ast.Constant(value='state'),
+                                        ctx=ast.Load()), env)
+            if st is UNK or isinstance(st, Sym):
+                raise AnalysisError('UNRECOGNISED-IDIOM %s: the state of the '
+                                    'notification handed to Pilot._update '
+                                    'cannot be evaluated: %s'
+                                    % (f.where, short(c, 60)))
+            env[SEQ] = tuple(env.get(SEQ, ())) + (st,)
+            env[PSTATE] = st
+            n_obs[0] += 1
+
+    ip = _ReplayInterp(prog, pm, prog_f, tab, inv, final, observe=observe,
+                       inputs={'self._pilots': {PUID: PMARK},
+                               '_pilot_state_inv': inv,
+                               "%s['uid']" % pdict: PUID},
+                       max_states=200000)
+
+    def expected(cur, tgt):
+        if cur == tgt:
+            return 'same', ()
+        if tab[cur] < tab[tgt]:
+            return 'ahead', tuple(inv[i] for i in range(tab[cur] + 1,
+                                                        tab[tgt])) + (tgt,)
+        return 'stale', ()
+
+    def conforms(cur, tgt, seq):
+        kind, want = expected(cur, tgt)
+        if kind == 'same':
+            return seq in ((), (tgt,))
+        if kind == 'ahead' and tgt in abnormal:
+            return bool(seq) and seq[-1] == tgt and _is_subseq(seq, want)
+        if kind == 'stale':
+            # (an update that carries the state the pilot already has is
+            # what the current == target branch does, too)
+            return seq in ((), (cur,))
+        return seq == want
+
+    # contradicting final states: the specification (R14.1) lets the progress
+    # function raise; _update_pilot then applies nothing after the call
+    plain = Interp(prog, None, inputs={'_pilot_state_inv': inv})
+    ppar = prog_f.params
+    raising = set()
+    if len(ppar) == 3:
+        for cur in final:
+            for tgt in final:
+                if cur != tgt and not plain.run(
+                        prog_f, {ppar[0]: PUID, ppar[1]: cur, ppar[2]: tgt}):
+                    raising.add((cur, tgt))
+    steps = {}          # target state -> {(prev, s)}
+    for tgt in states:
+        bad = None
+        for cur in states:
+            if (cur, tgt) in raising:
+                continue
+            ip.inputs[KEY_ST] = tgt
+            exits = ip.run(up, {SEQ: (), PSTATE: cur}, inlined=True)
+            if not exits:
+                raise AnalysisError('UNRECOGNISED-IDIOM %s: no path reaches '
+                                    'the end of the method for a pilot in %s '
+                                    'notified %s' % (up.where, cur, tgt))
+            seqs = []
+            for fe in exits:
+                d = dict(fe)
+                seq = thaw(d.get(SEQ, UNK))
+                if not isinstance(seq, tuple):
+                    raise AnalysisError('UNRECOGNISED-IDIOM %s: the updates '
+                                        'made below the inlining depth cannot '
+                                        'be followed' % up.where)
+                seqs.append((seq, bool(d.get('@c'))))
+            wrong = [q for q, c in seqs if not conforms(cur, tgt, q)]
+            decided = [q for q, c in seqs if not c and
+                       not conforms(cur, tgt, q)]
+            if decided or len(wrong) == len(seqs):
+                # report the nearest pair (the most likely history)
+                cand = (abs(tab[tgt] - tab[cur]), cur,
+                        sorted(set(decided or wrong))[0])
+                bad = cand if bad is None or cand[0] < bad[0] else bad
+            elif wrong:
+                rep.info(rid, up, 'pilot in %s notified %s: only paths whose '
+                         'conditions cannot be decided apply %s'
+                         % (cur, tgt, sorted(set(wrong))), up.loc())
+            for q, c in seqs:
+                if conforms(cur, tgt, q):
+                    for prev, s in zip((cur,) + q, q):
+                        steps.setdefault(s, set()).add((prev, s))
+        if bad:
+            bad = bad[1:]
+            cur, seq = bad
+            kind, want = expected(cur, tgt)
+            if kind == 'ahead' and _is_subseq(seq, want) and seq and \
+                    seq[-1] == tgt:
+                why = 'the skipped intermediate state(s) %s are not filled ' \
+                      'in; only %s may be entered from any state' % (
+                          [x for x in want if x not in seq],
+                          ' / '.join(sorted(abnormal)))
+                hist = 'pilot is %s, the notification(s) for %s are lost or ' \
+                       'late and the %s notification arrives: the callbacks ' \
+                       'jump %s -> %s (Pilot._update rejects a step of more ' \
+                       'than one state, so the pilot may never become %s)' \
+                       % (cur, ', '.join(want[:-1]), tgt, cur, seq[0], tgt)
+            elif kind == 'ahead':
+                why = 'the states in (current, target] are not applied one ' \
+                      'by one, each once, in pipeline order'
+                hist = 'pilot is %s and is notified %s: the callbacks see ' \
+                       '%s instead of %s' % (cur, tgt, list(seq), list(want))
+            elif kind == 'stale':
+                why = 'a notification that is not ahead of the state of the ' \
+                      'pilot must not be applied'
+                hist = 'pilot is %s and a late / reordered %s notification ' \
+                       'arrives: the callbacks see %s after %s' \
+                       % (cur, tgt, list(seq), cur)
+            else:
+                why = 'a notification for the state the pilot already has ' \
+                      'is applied at most once, unchanged'
+                hist = 'pilot is %s and a duplicate %s notification ' \
+                       'arrives: the callbacks see %s' % (cur, tgt, list(seq))
+        verdicts.append(dict(
+                  cond=bad is None, what='notification for %s: for every '
+                  'current state Pilot._update receives the states in '
+                  '(current, %s] one by one%s, nothing if %s is not ahead'
+                  % (tgt, tgt, ' (intermediate states may be dropped)'
+                     if tgt in abnormal else '', tgt),
+                  construct='replay:%s' % tgt,
+                  message='%s: for a pilot in state %s that is notified %s, '
+                  'Pilot._update receives the states %s; it must receive '
+                  '%s: %s' % ((up.qual, bad[0], tgt, list(bad[1]),
+                               list(expected(bad[0], tgt)[1]), why)
+                              if bad else (up.qual, '', tgt, [], [], '')),
+                  history=hist if bad else ''))
+    rep.stat('interp_states', ip.states)
+    if not n_obs[0]:
+        # (not eight findings: the method does not drive Pilot._update in a
+        # way this rule can follow - R14.2 looks at the call sites)
+        raise AnalysisError('UNRECOGNISED-IDIOM %s: no call of Pilot._update '
+                            'on the pilot instance is reached for any pair '
+                            'of states' % up.where)
+    for v in verdicts:
+        rep.check(v['cond'], rid, up, v['what'], construct=v['construct'],
+                  message=v['message'], loc=up.loc(), history=v['history'])
+    # the cooperating site: Pilot._update takes every step it is handed
+    for s in states:
+        rej = None
+        unk = 0
+        for prev, _ in sorted(steps.get(s, ())):
+            acc = _step_accepted(prog, upd, prev, s)
+            if acc is False:
+                rej = rej or prev
+            elif acc is None:
+                unk += 1
+        if unk:
+            rep.info(rid, upd, '%d step(s) into %s cannot be evaluated in '
+                     'Pilot._update' % (unk, s), upd.loc())
+        rep.check(rej is None, rid, upd, 'Pilot._update accepts every step '
+                  'into %s that _update_pilot hands it (%d)'
+                  % (s, len(steps.get(s, ()))), construct='accept:%s' % s,
+                  message='%s hands Pilot._update the step %s -> %s, but %s '
+                  'does not reach `self._state = %s` for it on any path (it '
+                  'raises or returns before): the notification is never '
+                  'applied' % (up.qual, rej, s, upd.qual, s),
+                  loc=upd.loc(), history='pilot is %s and is notified %s: '
+                  'Pilot._update raises out of the state subscriber, the '
+                  'facade keeps the state %s and wait() never sees %s'
+                  % (rej, s, rej, s))
+    return True
 
 
 # ------------------------------------------------------------------------------
@@ -1561,14 +1946,134 @@ def cause_defs(prog, agent):
     return out
 
 
-def r14_3(prog, rep, rid='R14.3'):
-    rep.rule(rid, 'a termination cause assigned to self._final_cause is not '
-             'replaced, on the way out of the method that assigns it (through '
-             'resolved self calls), by a cause that finalize maps to a '
-             'different final state', minimum=3)
-    agent = prog.cls(*AGENT)
-    fin = prog.method(AGENT[0], AGENT[1], 'finalize')
-    defs = cause_defs(prog, agent)
+def cause_call_sites(prog, agent, m, nested=True):
+    """[(caller FuncInfo, call)]: self / super() calls in the methods along
+    the MRO of agent that resolve to method m for an Agent_0 instance (this
+    includes the base class code that calls an overridden method)"""
+    out = []
+    for k in prog.mro(agent):
+        for mn, f in sorted(k.methods.items()):
+            for c in calls_in(f.node, nested=nested):
+                if not (isinstance(c.func, ast.Attribute) and
+                        c.func.attr == m.name):
+                    continue
+                try:
+                    g = prog.resolve_call(f, c, agent)
+                except Exception:
+                    g = None
+                if g is m:
+                    out.append((f, c))
+    return out
+
+
+def cause_params(f, stmts):
+    """parameters of f which the values stored by stmts are computed from"""
+    from ..flow import Deps
+    deps = Deps(f.node, nested=False, implicit=False)
+    read = set()
+    for s in stmts:
+        v = getattr(s, 'value', None)
+        if v is not None:
+            read |= set(deps.expr_depends(v))
+    return [p for p in f.params if p not in ('self', 'cls') and p in read]
+
+
+def site_names_cause(m, call, ps):
+    """the call passes a value for one of the parameters ps of m"""
+    a = m.node.args
+    pos = [x.arg for x in a.posonlyargs + a.args]
+    if pos and pos[0] in ('self', 'cls'):
+        pos = pos[1:]
+    for i, x in enumerate(call.args):
+        if isinstance(x, ast.Starred):
+            return True
+        if i < len(pos) and pos[i] in ps:
+            return True
+        if i >= len(pos) and a.vararg and a.vararg.arg in ps:
+            return True
+    for kw in call.keywords:
+        if kw.arg is None or kw.arg in ps or \
+                (a.kwarg and a.kwarg.arg in ps):
+            return True
+    return False
+
+
+def _bound_args(g, call):
+    """[(parameter name of g, argument expression)] of a self call"""
+    a = g.node.args
+    pos = [x.arg for x in a.posonlyargs + a.args]
+    if pos and pos[0] in ('self', 'cls'):
+        pos = pos[1:]
+    names = set(pos) | {x.arg for x in a.kwonlyargs}
+    out = []
+    for i, x in enumerate(call.args):
+        if i < len(pos) and not isinstance(x, ast.Starred):
+            out.append((pos[i], x))
+    for kw in call.keywords:
+        if kw.arg in names:
+            out.append((kw.arg, kw.value))
+    return out
+
+
+def cause_params_trans(prog, agent, m, depth=3, _seen=()):
+    """parameters of m which the cause stored by m - or by a self callee m
+    hands them to - is computed from"""
+    from ..flow import Deps
+    own = [stmt for kind, target, stmt in I.stores(m.node)
+           if _key_of(target) == CAUSE and kind == 'assign' and
+           isinstance(stmt, ast.Assign) and
+           prog.fold(m.module, stmt.value, m.cls) is UNK]
+    ps = set(cause_params(m, own))
+    if depth <= 0:
+        return ps
+    deps = None
+    for c in calls_in(m.node):
+        fn = c.func
+        if not (isinstance(fn, ast.Attribute) and (
+                (isinstance(fn.value, ast.Name) and fn.value.id == 'self') or
+                (isinstance(fn.value, ast.Call) and
+                 isinstance(fn.value.func, ast.Name) and
+                 fn.value.func.id == 'super'))):
+            continue
+        try:
+            g = prog.resolve_call(m, c, agent)
+        except Exception:
+            g = None
+        if g is None or g is m or id(g.node) in _seen:
+            continue
+        gp = cause_params_trans(prog, agent, g, depth - 1,
+                                _seen + (id(m.node),))
+        if not gp:
+            continue
+        deps = deps or Deps(m.node, nested=False, implicit=False)
+        for pname, expr in _bound_args(g, c):
+            if pname in gp:
+                read = set(deps.expr_depends(expr))
+                ps |= {p for p in m.params
+                       if p not in ('self', 'cls') and p in read}
+    return ps
+
+
+def site_cause(prog, agent, caller, call, m):
+    """cause values m leaves behind when it is entered through this call
+    (arguments / defaults bound) and no cause was recorded before"""
+    ip = Interp(prog, agent, track=[CAUSE])
+    cenv = ip._bind(caller, call, m, {CAUSE: None})
+    exits = ip.run(m, cenv, inlined=True)
+    return {unsym(thaw(dict(fe).get(CAUSE, UNK))) for fe in exits} - {None}
+
+
+def effective_cause(prog, agent, f):
+    """cause values method f leaves behind (through resolved self calls)
+    when no cause was recorded before"""
+    ip = Interp(prog, agent, track=[CAUSE])
+    exits = ip.run(f, {CAUSE: None})
+    return {unsym(thaw(dict(fe).get(CAUSE, UNK))) for fe in exits} - {None}
+
+
+def cause_states(prog, agent, fin):
+    """state_of(cause) -> frozenset of states finalize writes into the signal
+    file for that cause (UNK inside if it cannot be evaluated)"""
     table = {}
 
     def state_of(c):
@@ -1581,26 +2086,33 @@ def r14_3(prog, rep, rid='R14.3'):
             except AnalysisError:
                 table[c] = frozenset([UNK])
         return table[c]
+    return state_of
 
-    n = 0
-    for f, stmt, lit in defs:
-        if f.name == '__init__':
-            continue
-        n += 1
-        rep.saw(f)
-        if lit is UNK:
-            rep.ok(rid, f, 'cause assigned from a non-constant expression in '
-                   '%s: followed by value from the callers' % f.qual,
-                   f.loc(stmt))
-            continue
+
+def r14_3(prog, rep, rid='R14.3'):
+    rep.rule(rid, 'a termination cause recorded in self._final_cause (by a '
+             'literal assignment, or by the argument / default a call hands '
+             'to a method that stores its parameter) is not replaced, on the '
+             'way out of the method that records it (through resolved self '
+             'calls), by a cause that finalize maps to a different final '
+             'state', minimum=3)
+    agent = prog.cls(*AGENT)
+    fin = prog.method(AGENT[0], AGENT[1], 'finalize')
+    defs = cause_defs(prog, agent)
+    state_of = cause_states(prog, agent, fin)
+
+    def check_def(f, anchor, lit, via=None):
+        """the cause lit recorded at `anchor` (assignment, or call of the
+        recording method `via`) in f survives to the end of f"""
         g = cfg_of(f)
         smap = I.stmt_node_map(g)
-        node = smap.get(id(stmt))
+        node = smap.get(id(anchor))
         if node is None:
             raise AnalysisError('R14.3: no CFG node for %s in %s'
-                                % (short(stmt), f.where))
+                                % (short(anchor), f.where))
         ip = Interp(prog, agent, track=[CAUSE], symbolic=True)
-        exits = ip.run(f, {}, start=node.id)
+        exits = ip.run(f, {} if via is None else {CAUSE: None},
+                       start=node.id)
         rep.stat('interp_states', ip.states)
         want = state_of(lit)
 
@@ -1631,27 +2143,187 @@ def r14_3(prog, rep, rid='R14.3'):
             'call it makes)'
         got = sorted({x for v in vals if v is not UNK for x in state_of(v)
                       if x is not UNK})
+        does = 'assigns' if via is None else \
+            'records through `%s` (%s stores its parameter)' % (
+                short(anchor, 40), via.qual)
         rep.check(survived, rid, f,
-                  'cause %r assigned in %s reaches the end of the method '
+                  'cause %r %s in %s reaches the end of the method '
                   '(or is replaced by one with the same final state)'
-                  % (lit, f.qual), construct=stmt,
-                  message='%s assigns the cause %r (final state %s) and then, '
+                  % (lit, 'assigned' if via is None else 'handed to %s'
+                     % via.qual, f.qual), construct=anchor,
+                  message='%s %s the cause %r (final state %s) and then, '
                   '%s, the cause is overwritten (%s; '
                   'final value %s): Agent_0.finalize does not see %r and '
                   'reports %s instead'
-                  % (f.qual, lit, '/'.join(sorted(map(str, want))), how,
+                  % (f.qual, does, lit, '/'.join(sorted(map(str, want))), how,
                      '; '.join(sorted(who)),
                      '/'.join(repr(v) for v in sorted(vals, key=repr)), lit,
                      '/'.join(got)),
-                  loc=f.loc(stmt),
+                  loc=f.loc(anchor),
                   history='the agent terminates for the reason %r (via %s): '
                   'finalize reads %s and writes %s instead of %s into '
                   'killme.signal and the final state update'
                   % (lit, f.qual, '/'.join(repr(v) for v in
                                            sorted(vals, key=repr)),
                      '/'.join(got), '/'.join(sorted(map(str, want)))))
+
+    def expand(m, depth):
+        """(caller, call, constant cause or None, recording method) per call
+        site of the parameterised recorder m; a caller that only hands its
+        own parameter on is expanded to its callers"""
+        for caller, call in cause_call_sites(prog, agent, m, nested=False):
+            vals = site_cause(prog, agent, caller, call, m)
+            known = [v for v in vals if v is not UNK]
+            if len(vals) == 1 and known:
+                yield caller, call, known[0], m
+            elif depth > 0 and cause_params_trans(prog, agent, caller):
+                yield from expand(caller, depth - 1)
+            else:
+                yield caller, call, None, m
+
+    n = 0
+    for f, stmt, lit in defs:
+        if f.name == '__init__':
+            continue
+        n += 1
+        rep.saw(f)
+        if lit is not UNK:
+            check_def(f, stmt, lit)
+            continue
+        # the stored value is computed from parameters: one definition per
+        # call site (explicit argument or default)
+        sites = list(expand(f, 3)) if cause_params(f, [stmt]) else []
+        if not sites:
+            rep.ok(rid, f, 'cause assigned from a non-constant expression in '
+                   '%s: followed by value from the callers' % f.qual,
+                   f.loc(stmt))
+            continue
+        for caller, call, val, via in sites:
+            rep.saw(caller)
+            if val is None:
+                rep.ok(rid, caller, 'cause handed to %s by `%s` is not one '
+                       'constant' % (via.qual, short(call, 40)),
+                       caller.loc(call))
+                continue
+            check_def(caller, call, val, via=via)
     rep.stat('cause_definitions', n)
     return defs
+
+
+# ------------------------------------------------------------------------------
+# R14.8  the shared shutdown path keeps a recorded cause
+#
+def r14_8(prog, rep, rid='R14.8'):
+    rep.rule(rid, 'a method of Agent_0 that records a termination cause and '
+             'is entered from several places (the shared shutdown path: it '
+             'runs again when the next stop request arrives) keeps a cause '
+             'that is already recorded, for every call that does not name a '
+             'cause of its own (no argument for the stored parameter)',
+             minimum=2)
+    agent = prog.cls(*AGENT)
+    fin = prog.method(AGENT[0], AGENT[1], 'finalize')
+    state_of = cause_states(prog, agent, fin)
+    defs = cause_defs(prog, agent)
+    lits = {}
+    for f, stmt, lit in defs:
+        if f.name != '__init__':
+            lits.setdefault(id(f.node), []).append((stmt, lit))
+    # every method an Agent_0 instance has that records a cause, itself or
+    # through the self calls it makes
+    probe = Interp(prog, agent, track=[CAUSE])
+    info = {}
+    for k in prog.mro(agent):
+        for mn, m in sorted(k.methods.items()):
+            if mn == '__init__' or id(m.node) in info or \
+                    not probe.may_write(m):
+                continue
+            sites = cause_call_sites(prog, agent, m, nested=True)
+            ps = cause_params_trans(prog, agent, m)
+            info[id(m.node)] = (m, lits.get(id(m.node), []), sites, ps)
+    # the causes that are recorded for a reason: literal assignments and
+    # arguments named by a caller
+    causes = {}
+    for key, (m, ws, sites, ps) in sorted(info.items(),
+                                          key=lambda kv: kv[1][0].qual):
+        for stmt, lit in ws:
+            if lit is not UNK and lit is not None:
+                causes.setdefault(lit, '%s (`%s`)' % (m.qual,
+                                                      short(stmt, 40)))
+        for caller, call in sites:
+            if ps and site_names_cause(m, call, ps):
+                for v in site_cause(prog, agent, caller, call, m):
+                    if v is not UNK and v is not None:
+                        causes.setdefault(v, '%s (`%s`)' % (
+                            caller.qual, short(call, 40)))
+    n_shared = 0
+    for key, (m, ws, sites, ps) in sorted(info.items(),
+                                          key=lambda kv: kv[1][0].qual):
+        callers = {id(c.node) for c, _ in sites}
+        if len(callers) < 2:
+            rep.info(rid, m, '%s records a cause and has %d calling '
+                     'method(s): the handler of one specific reason, not a '
+                     'shared path' % (m.qual, len(callers)), m.loc())
+            continue
+        n_shared += 1
+        rep.saw(m)
+        for caller, call in sites:
+            where = '%s (`%s`)' % (caller.qual, short(call, 40))
+            if ps and site_names_cause(m, call, ps):
+                rep.ok(rid, m, '%s entered from %s with a cause of its own'
+                       % (m.qual, where), caller.loc(call))
+                continue
+            bad = None
+            for c in sorted(causes, key=repr):
+                want = state_of(c)
+                if UNK in want:
+                    continue
+                ip = Interp(prog, agent, track=[CAUSE], symbolic=True)
+                cenv = ip._bind(caller, call, m, {CAUSE: c})
+                exits = ip.run(m, cenv, inlined=True)
+                rep.stat('interp_states', ip.states)
+
+                def keeps(v):
+                    return v is UNK or v == c or UNK in state_of(v) or \
+                        bool(state_of(v) & want)
+                vals = [(unsym(thaw(dict(fe).get(CAUSE, UNK))),
+                         bool(dict(fe).get('@c'))) for fe in exits]
+                lost = [v for v, und in vals if not keeps(v)]
+                decided = [v for v, und in vals if not und and not keeps(v)]
+                if decided or (vals and len(lost) == len(vals)):
+                    bad = bad or (c, sorted(set(decided or lost), key=repr))
+            got = sorted({x for v in (bad[1] if bad else [])
+                          for x in state_of(v) if x is not UNK}, key=str)
+            rep.check(bad is None, rid, m, '%s entered from %s, which names '
+                      'no cause, keeps a recorded cause' % (m.qual, where),
+                      construct='reentry:%s' % caller.qual,
+                      message='%s stores a cause without testing that none '
+                      'is recorded yet, and it is a shared path (called '
+                      'from %s): entered from %s - which names no cause, so '
+                      'the default / fallback applies - after the cause %r '
+                      '(final state %s, recorded by %s), it leaves %s '
+                      'behind: Agent_0.finalize reports %s instead of %s'
+                      % ((m.qual, ', '.join(sorted({c_.qual for c_, _ in
+                                                    sites})), where, bad[0],
+                          '/'.join(sorted(map(str, state_of(bad[0])))),
+                          causes[bad[0]],
+                          '/'.join(map(repr, bad[1])), '/'.join(got),
+                          '/'.join(sorted(map(str, state_of(bad[0])))))
+                         if bad else (m.qual, '', where, '', '', '', '', '',
+                                      '')),
+                      loc=m.loc(),
+                      history='the agent ends for the reason %r (%s); before '
+                      'finalize reads the cause another stop request arrives '
+                      'through %s (e.g. the `terminate` command the client '
+                      'publishes when it closes its session): the cause '
+                      'becomes %s and the pilot ends %s instead of %s'
+                      % ((bad[0], causes[bad[0]], where,
+                          '/'.join(map(repr, bad[1])), '/'.join(got),
+                          '/'.join(sorted(map(str, state_of(bad[0])))))
+                         if bad else ('', '', where, '', '', '')))
+    if not n_shared:
+        raise AnalysisError('R14.8: no method of Agent_0 that records a '
+                            'cause is called from two methods (the shared '
+                            'stop path is gone or changed shape)')
 
 
 # ------------------------------------------------------------------------------
@@ -1745,12 +2417,24 @@ def r14_4_5(prog, rep, defs):
     canceled = prog.const(STATES, 'CANCELED')
     failed = prog.const(STATES, 'FAILED')
 
+    if defs is None:
+        defs = cause_defs(prog, agent)
+
     def lit_of(mname):
         got = [(f, s, v) for f, s, v in defs if f.name == mname]
-        if len(got) != 1 or got[0][2] is UNK:
+        if len(got) == 1 and got[0][2] is not UNK:
+            return got[0]
+        # no literal assignment in the method itself: the cause it leaves
+        # behind through the (parameterised) methods it calls
+        f = prog.find_method(agent, mname)
+        vals = effective_cause(prog, agent, f) if f is not None else set()
+        if len(vals) != 1 or UNK in vals:
             raise AnalysisError('UNRECOGNISED-IDIOM Agent_0.%s: expected one '
-                                'literal assignment to %s' % (mname, CAUSE))
-        return got[0]
+                                'literal assignment to %s, or one constant '
+                                'cause recorded through the methods it calls '
+                                '(found %s)' % (mname, CAUSE,
+                                                sorted(map(repr, vals))))
+        return (f, None, list(vals)[0])
 
     cases = [('runtime limit reached', lit_of('_check_lifetime'), done),
              ('cancel_pilots request', lit_of('_ctrl_cancel_pilots'),
@@ -1791,7 +2475,8 @@ def r14_4_5(prog, rep, defs):
                       history='%s: %s sets the cause %r, finalize reports %s'
                       % (what, df.qual, lit, '/'.join(map(repr, wrong))))
     # literals tested but never assigned (information)
-    assigned = {v for _, _, v in defs if v is not UNK}
+    assigned = {v for _, _, v in defs if v is not UNK} | \
+        {c[1][2] for c in cases}
     for t in walk(fin.node):
         if isinstance(t, ast.Compare) and _key_of(t.left) == CAUSE:
             for cmpr in t.comparators:
@@ -2137,8 +2822,16 @@ def run(prog, rep, tier):
         'the states in (cur, tgt] and only for cur < tgt; Pilot._state has '
         'the two writers __init__/_update and _update is driven only by '
         'PilotManager._update_pilot (known pilot, unchanged state or once '
-        'per passed state); a termination cause is not overwritten by a '
-        'different one before the assigning method returns; finalize maps '
+        'per passed state); for every (current, notified) pair of table '
+        'states _update_pilot hands Pilot._update exactly the states in '
+        '(current, target] (intermediate states dropped only for FAILED / '
+        'CANCELED, nothing for a target that is not ahead) and Pilot._update '
+        'accepts each of these steps; a termination cause - literal or '
+        'argument / default of a method that stores its parameter - is not '
+        'overwritten by a different one before the recording method returns; '
+        'a cause-recording method that is entered from several methods (stop) '
+        'keeps a recorded cause for every call that names no cause; finalize '
+        'maps '
         'runtime expiry to DONE, a cancel request to CANCELED and no cause '
         'to FAILED in both killme.signal and the final update; the signal '
         'file name and FAILED default agree with bootstrap_0.sh; the pilot '
@@ -2146,8 +2839,10 @@ def run(prog, rep, tier):
     rep.undecided = ('what bootstrap_0.sh does with the state beyond the '
         'file-name contract; delivery order/timing of notifications; '
         'exceptions raised by _pilot_state_progress on contradictory finals; '
-        'callbacks that run between the cause assignment and finalize in '
-        'other threads.')
+        'which handler of a specific reason (runtime limit, cancel request) '
+        'wins when both occur before finalize (either final state is then '
+        'justified); a guard of the cause store that does not read the '
+        'cause itself (undecided tests are unconstrained).')
     rep.assumptions = [
         'no monkey patching / setattr with computed names on Pilot, '
         'PilotManager, Agent_0; subclasses outside the package do not '
@@ -2156,14 +2851,20 @@ def run(prog, rep, tier):
         'write Agent_0._final_cause',
         'an unresolvable test is unconstrained (both branches are followed); '
         'tests on the cause itself are evaluated',
+        'R14.7 takes _pilot_state_progress by its specification (R14.1 '
+        'decides that the function meets it) and one known pilot in '
+        'self._pilots; a method called from one method only is the handler '
+        'of one specific termination reason (R14.8 looks at shared ones)',
         'bootstrap_0.sh is matched textually for `final_state=$(cat F)`, '
         '`test -e F` and the `test -z "$final_state"` default block only',
     ]
-    r14_1(prog, rep)
-    r14_2(prog, rep, tier=tier)
-    defs = r14_3(prog, rep)
-    r14_4_5(prog, rep, defs)
-    r14_6(prog, rep)
+    rep.attempt(r14_1, prog, rep)
+    by_value = bool(rep.attempt(r14_7, prog, rep))
+    rep.attempt(r14_2, prog, rep, tier=tier, by_value=by_value)
+    defs = rep.attempt(r14_3, prog, rep)
+    rep.attempt(r14_4_5, prog, rep, defs)
+    rep.attempt(r14_8, prog, rep)
+    rep.attempt(r14_6, prog, rep)
     if tier == 'thorough':
         sweep_result_tests(prog, rep)
         # sweep: any other class of the package that keeps a _final_cause
@@ -2219,13 +2920,13 @@ MUTATIONS = [
     dict(name='R14.2 unknown-pilot test inverted', rules=('R14.2',), edits=[
         (_P, "            if pid not in self._pilots:\n                return   # this is not an error\n\n            # only update on state changes",
              "            if pid in self._pilots:\n                return   # this is not an error\n\n            # only update on state changes")]),
-    dict(name='R14.2 replay does not set the passed state', rules=('R14.2',), edits=[
+    dict(name='R14.2 replay does not set the passed state', rules=('R14.2', 'R14.7'), edits=[
         (_P, "                pilot_dict['state'] = s\n                self._pilots[pid]._update(pilot_dict)",
              "                self._pilots[pid]._update(pilot_dict)")]),
-    dict(name='R14.2 target applied directly, no replay', rules=('R14.2',), edits=[
+    dict(name='R14.2 target applied directly, no replay', rules=('R14.2', 'R14.7'), edits=[
         (_P, "            target, passed = rps._pilot_state_progress(pid, current, target)\n",
              "            target, passed = rps._pilot_state_progress(pid, current, target)\n            self._pilots[pid]._update(pilot_dict)\n")]),
-    dict(name='R14.2 replay iterates a locally built list', rules=('R14.2',), edits=[
+    dict(name='R14.2 replay iterates a locally built list', rules=('R14.2', 'R14.7'), edits=[
         (_P, "            if target in [rps.CANCELED, rps.FAILED]:\n                # don't replay intermediate states\n                passed = passed[-1:]\n",
              "            if target in [rps.CANCELED, rps.FAILED]:\n                # don't replay intermediate states\n                passed = [pilot_dict['state']]\n")]),
     dict(name='R14.2 state callback updates the pilot directly', rules=('R14.2',), edits=[
@@ -2305,15 +3006,63 @@ MUTATIONS = [
         (BOOT, "    final_state='FAILED'", "    final_state='DONE'")]),
     dict(name='R14.5 signal file appended, not truncated', rules=('R14.5',), edits=[
         (_A, "ru.ru_open('./killme.signal', 'w')", "ru.ru_open('./killme.signal', 'a')")]),
+    dict(name='R14.7 seed C14-c: intermediate states dropped for every final target', rules=('R14.7',), edits=[
+        (_P, "            if target in [rps.CANCELED, rps.FAILED]:\n                # don't replay intermediate states\n                passed = passed[-1:]\n",
+             "            if target in rps.FINAL:\n                # the pilot is gone: don't replay intermediate states\n                passed = passed[-1:]\n")]),
+    dict(name='R14.7 truncation set hoisted and spelled as a tuple that includes DONE', rules=('R14.7',), edits=[
+        (_P, "            if target in [rps.CANCELED, rps.FAILED]:\n                # don't replay intermediate states\n                passed = passed[-1:]\n",
+             "            ended = (rps.DONE, rps.FAILED, rps.CANCELED)\n            if target in ended:\n                passed = passed[len(passed) - 1:]\n")]),
+    dict(name='R14.7 intermediate states never replayed', rules=('R14.7',), edits=[
+        (_P, "            if target in [rps.CANCELED, rps.FAILED]:\n                # don't replay intermediate states\n                passed = passed[-1:]\n",
+             "            passed = passed[-1:]\n")]),
+    dict(name='R14.7 truncation test with flipped polarity', rules=('R14.7',), edits=[
+        (_P, "            if target in [rps.CANCELED, rps.FAILED]:\n                # don't replay intermediate states\n                passed = passed[-1:]\n",
+             "            if target not in [rps.CANCELED, rps.FAILED]:\n                passed = passed[-1:]\n")]),
+    dict(name='R14.7 replay skips the first passed state', rules=('R14.7',), edits=[
+        (_P, "            if target in [rps.CANCELED, rps.FAILED]:\n                # don't replay intermediate states\n                passed = passed[-1:]\n",
+             "            if target in [rps.CANCELED, rps.FAILED]:\n                passed = passed[-1:]\n            elif len(passed) > 2:\n                passed = passed[1:]\n")]),
+    dict(name='R14.7 Pilot._update no longer exempts CANCELED from the single-step test', rules=('R14.7',), edits=[
+        (_F, "        if target not in [rps.FAILED, rps.CANCELED]:\n",
+             "        if target not in [rps.FAILED]:\n")]),
+    dict(name='R14.8 seed C14-d: stop(cause) records unconditionally, terminate path uses the default', rules=('R14.8',), edits=[
+        (_A, "                self._final_cause = 'timeout'\n                self.stop()\n",
+             "                self.stop(cause='timeout')\n"),
+        (_A, "    def stop(self):\n\n        self._log.info('stop agent')\n",
+             "    def stop(self, cause='cancel'):\n\n        self._log.info('stop agent')\n"),
+        (_A, "        if self._final_cause is None:\n            self._final_cause = 'cancel'\n",
+             "        self._final_cause = cause\n"),
+        (_A, "        self._final_cause = 'cancel'\n        self.publish(rpc.CONTROL_PUBSUB, {'cmd' : 'terminate',\n                                          'arg' : None})\n        self.stop()\n",
+             "        self.publish(rpc.CONTROL_PUBSUB, {'cmd' : 'terminate',\n                                          'arg' : None})\n        self.stop(cause='cancel')\n")]),
+    dict(name='R14.8 same with the store in a setter helper', rules=('R14.8',), edits=[
+        (_A, "                self._final_cause = 'timeout'\n                self.stop()\n",
+             "                self.stop(cause='timeout')\n"),
+        (_A, "    def stop(self):\n\n        self._log.info('stop agent')\n",
+             "    def stop(self, cause='cancel'):\n\n        self._log.info('stop agent')\n"),
+        (_A, "        if self._final_cause is None:\n            self._final_cause = 'cancel'\n",
+             "        self._set_cause(cause)\n"),
+        (_A, "        self._final_cause = 'cancel'\n        self.publish(rpc.CONTROL_PUBSUB, {'cmd' : 'terminate',\n                                          'arg' : None})\n        self.stop()\n",
+             "        self.publish(rpc.CONTROL_PUBSUB, {'cmd' : 'terminate',\n                                          'arg' : None})\n        self.stop(cause='cancel')\n"),
+        (_A, "    def _ctrl_cancel_pilots(self, msg):\n",
+             "    def _set_cause(self, cause):\n        self._final_cause = cause\n\n    def _ctrl_cancel_pilots(self, msg):\n")]),
+    dict(name='R14.8 stop(cause=None) falls back to cancel without looking at the recorded cause', rules=('R14.8',), edits=[
+        (_A, "                self._final_cause = 'timeout'\n                self.stop()\n",
+             "                self.stop('timeout')\n"),
+        (_A, "    def stop(self):\n\n        self._log.info('stop agent')\n",
+             "    def stop(self, cause=None):\n\n        self._log.info('stop agent')\n"),
+        (_A, "        if self._final_cause is None:\n            self._final_cause = 'cancel'\n",
+             "        self._final_cause = cause or 'cancel'\n")]),
 ]
 
 SILENT = [
     dict(name='stop keeps an earlier cause (truthiness test)', edits=[
         (_A, "        if self._final_cause is None:\n            self._final_cause = 'cancel'\n",
              "        if not self._final_cause:\n            self._final_cause = 'cancel'\n")]),
+    # (this variant used to drop the `is None` guard of stop(): that is seed
+    # C14-d - a later stop() from the terminate path overwrites 'timeout' -
+    # and not behaviour preserving; the guard is kept now)
     dict(name='cause passed to stop() as parameter', edits=[
         (_A, "    def stop(self):\n\n        self._log.info('stop agent')\n", "    def stop(self, cause='cancel'):\n\n        self._log.info('stop agent')\n"),
-        (_A, "        if self._final_cause is None:\n            self._final_cause = 'cancel'\n", "        self._final_cause = cause\n"),
+        (_A, "        if self._final_cause is None:\n            self._final_cause = 'cancel'\n", "        if self._final_cause is None:\n            self._final_cause = cause\n"),
         (_A, "                self._final_cause = 'timeout'\n                self.stop()\n",
              "                self._final_cause = 'timeout'\n                self.stop(cause='timeout')\n")]),
     dict(name='shutdown helper called with a constant flag that skips the overwrite', edits=[
@@ -2362,6 +3111,57 @@ SILENT = [
              "    if tgt > cur:\n        passed = []\n        for step in range(1 + cur, tgt):\n            passed.append(_pilot_state_inv[step])\n        passed.append(target)\n        return target, passed\n\n    return [current, list()]\n\n\n# ------------------------------------------------------------------------------\n#\ndef _pilot_state_collapse")]),
     dict(name='bootstrapper quotes the file differently', edits=[
         (BOOT, "final_state=$(cat ./killme.signal)", "final_state=$(cat killme.signal)")]),
+    dict(name='cause passed to stop() by every caller, first cause wins', edits=[
+        (_A, "                self._final_cause = 'timeout'\n                self.stop()\n",
+             "                self.stop(cause='timeout')\n"),
+        (_A, "    def stop(self):\n\n        self._log.info('stop agent')\n",
+             "    def stop(self, cause='cancel'):\n\n        self._log.info('stop agent')\n"),
+        (_A, "        if self._final_cause is None:\n            self._final_cause = 'cancel'\n",
+             "        if self._final_cause is None:\n            self._final_cause = cause\n"),
+        (_A, "        self._final_cause = 'cancel'\n        self.publish(rpc.CONTROL_PUBSUB, {'cmd' : 'terminate',\n                                          'arg' : None})\n        self.stop()\n",
+             "        self.publish(rpc.CONTROL_PUBSUB, {'cmd' : 'terminate',\n                                          'arg' : None})\n        self.stop(cause='cancel')\n")]),
+    dict(name='stop() guard reads the cause into a local first', edits=[
+        (_A, "        if self._final_cause is None:\n            self._final_cause = 'cancel'\n",
+             "        recorded = self._final_cause\n        if recorded is None:\n            self._final_cause = 'cancel'\n")]),
+    dict(name='stop() guard as or-expression', edits=[
+        (_A, "        if self._final_cause is None:\n            self._final_cause = 'cancel'\n",
+             "        self._final_cause = self._final_cause or 'cancel'\n")]),
+    dict(name='stop() guard in negated / else form', edits=[
+        (_A, "        if self._final_cause is None:\n            self._final_cause = 'cancel'\n",
+             "        if self._final_cause is not None:\n            pass\n        else:\n            self._final_cause = 'cancel'\n")]),
+    dict(name='causes recorded through a guarded setter helper', edits=[
+        (_A, "                self._final_cause = 'timeout'\n                self.stop()\n",
+             "                self._record_cause('timeout')\n                self.stop()\n"),
+        (_A, "        if self._final_cause is None:\n            self._final_cause = 'cancel'\n",
+             "        self._record_cause('cancel')\n"),
+        (_A, "    def _ctrl_cancel_pilots(self, msg):\n",
+             "    def _record_cause(self, cause):\n        if self._final_cause is None:\n            self._final_cause = cause\n\n    def _ctrl_cancel_pilots(self, msg):\n")]),
+    dict(name='truncation test with hoisted container, truncated list under a new name', edits=[
+        (_P, "            if target in [rps.CANCELED, rps.FAILED]:\n                # don't replay intermediate states\n                passed = passed[-1:]\n\n            for s in passed:\n",
+             "            abnormal = (rps.FAILED, rps.CANCELED)\n            replay   = passed\n            if target in abnormal:\n                replay = passed[-1:]\n\n            for s in replay:\n")]),
+    dict(name='truncation in negated / else form with an explicit index', edits=[
+        (_P, "            if target in [rps.CANCELED, rps.FAILED]:\n                # don't replay intermediate states\n                passed = passed[-1:]\n",
+             "            if target not in [rps.CANCELED, rps.FAILED]:\n                pass\n            else:\n                passed = passed[len(passed) - 1:]\n")]),
+    dict(name='truncation as two equality tests, last element rebuilt if there is one', edits=[
+        (_P, "            if target in [rps.CANCELED, rps.FAILED]:\n                # don't replay intermediate states\n                passed = passed[-1:]\n",
+             "            if target == rps.FAILED or target == rps.CANCELED:\n                if passed:\n                    passed = [passed[-1]]\n")]),
+    dict(name='truncation as conditional expression', edits=[
+        (_P, "            if target in [rps.CANCELED, rps.FAILED]:\n                # don't replay intermediate states\n                passed = passed[-1:]\n",
+             "            passed = passed[-1:] if target in [rps.CANCELED, rps.FAILED] else passed\n")]),
+    dict(name='truncation in an extracted helper method', edits=[
+        (_P, "            if target in [rps.CANCELED, rps.FAILED]:\n                # don't replay intermediate states\n                passed = passed[-1:]\n",
+             "            passed = self._trim_passed(target, passed)\n"),
+        (_P, "    def _call_pilot_callbacks(self, pilot):\n",
+             "    def _trim_passed(self, target, passed):\n\n        if target in [rps.CANCELED, rps.FAILED]:\n            return passed[-1:]\n        return passed\n\n\n    # --------------------------------------------------------------------------\n    #\n    def _call_pilot_callbacks(self, pilot):\n")]),
+    dict(name='truncation in place', edits=[
+        (_P, "            if target in [rps.CANCELED, rps.FAILED]:\n                # don't replay intermediate states\n                passed = passed[-1:]\n",
+             "            if target in [rps.CANCELED, rps.FAILED]:\n                del passed[:-1]\n")]),
+    dict(name='replay list copied, truncation by filtering', edits=[
+        (_P, "            if target in [rps.CANCELED, rps.FAILED]:\n                # don't replay intermediate states\n                passed = passed[-1:]\n",
+             "            if target in [rps.CANCELED, rps.FAILED]:\n                passed = [x for x in passed if x == target]\n")]),
+    dict(name='Pilot._update exemption test with hoisted container', edits=[
+        (_F, "        if target not in [rps.FAILED, rps.CANCELED]:\n",
+             "        anywhere = (rps.CANCELED, rps.FAILED)\n        if target not in anywhere:\n")]),
 ]
 
 
